@@ -51,7 +51,16 @@ TProc ==
           /\ (pr.exit = 2 /\ o.kind # "usage") => Check(pr.stderr_lines = 1, "C13", <<"cli-error-not-one-line", pr.stderr_lines>>)
           /\ Check(pr.exit \in {0, 1, 2}, "C13", <<"cli-exit", pr.exit>>)
 
+(* C13 through the binaries: any diff text applied with -p ends with status 0 or 2; an error is one line, never a stack trace *)
+TCliPatch ==
+  /\ IsEvent("CliPatch") /\ Consume /\ UNCHANGED prev
+  /\ Judge("C13") =>
+       /\ Check(~Rec.proc.stack_trace, "C13", <<"cli-stack-trace", Rec.bin>>)
+       /\ Check(~Rec.proc.timeout, "C13", <<"cli-hang", Rec.bin>>)
+       /\ Check(Rec.proc.exit \in {0, 2}, "C13", <<"cli-exit", Rec.bin, Rec.proc.exit>>)
+       /\ (Rec.proc.exit = 2 /\ ~Rec.proc.stack_trace) => Check(Rec.proc.stderr_lines = 1, "C13", <<"cli-error-not-one-line", Rec.bin>>)
+
 TEnd == IsEvent("End") /\ Consume /\ prev' = <<>>
-Next == TProc \/ TEnd \/ (Done /\ UNCHANGED prev)
+Next == TProc \/ TCliPatch \/ TEnd \/ (Done /\ UNCHANGED prev)
 Spec == Init /\ [][Next]_vars
 =============================================================================
